@@ -3,9 +3,9 @@
    panic exactly on None, plus the value-level characterisations). *)
 From Coq Require Import ZArith List Bool Lia.
 From RV.Model Require Import Base Word.
-From RV.Model Require Add Shift Bits Conv Bytes Mul UDiv Facade.
+From RV.Model Require Add Shift Bits Conv Bytes Mul UDiv Pow Gcd BaseConv Str Facade.
 From RV.Proofs Require Import BaseFacts PfAdd PfC01 PfShift PfBits PfConv PfBytes PfC06 PfFacade.
-From RV.Proofs Require PfMul PfUDiv PfC03Closed.
+From RV.Proofs Require PfMul PfUDiv PfC03Closed PfPow PfGcd PfGcdMatrix PfC12Closed PfStr.
 From RV.Run Require Import RunC20.
 Import ListNotations.
 Import Facade.
@@ -53,22 +53,6 @@ Lemma join_val c f i :
   spec c (join (Val f) (Val i)) = true.
 Proof. intros H1 H2 H3. cbn [join enc]. rewrite spec_val by exact H1. now rewrite H2, H3. Qed.
 
-(* ---------- observed results ---------- *)
-Lemma okside_obs bits obs : obs_okb bits obs = true -> okside (side_of_obs obs).
-Proof.
-  intros H. unfold obs_okb in H. unfold side_of_obs.
-  destruct obs as [|[|k kt] ot]; try discriminate H.
-  destruct k as [|p|p]; try discriminate H.
-  - destruct kt; [|discriminate H]. destruct ot; [exact I|discriminate H].
-  - do 3 (try match goal with q : positive |- _ => destruct q as [q|q|] end); try discriminate H.
-    all: repeat match goal with
-         | |- okside (match ?l with _ => _ end) => destruct l; cbv iota in H; try discriminate H
-         end.
-    all: cbn [okside nosep]; try reflexivity.
-    destruct z as [|q|q]; try discriminate H.
-    match goal with |- nosep (map TZ ?l) = true => clear; induction l; cbn; auto end.
-Qed.
-
 (* ---------- unpacking wf ---------- *)
 Ltac unpack :=
   repeat match goal with
@@ -105,26 +89,6 @@ Proof.
   destruct (nth_error l _); [|now right]. destruct (_ <=? _); [left; eauto | now right].
 Qed.
 
-(* a facade that unwraps the inherent Option *)
-Lemma join_unwrap c s :
-  okside s -> unwraps c = true -> (forall t, extra c t = true) ->
-  spec c (join (unwrap_side s) s) = true.
-Proof.
-  intros Hs Hu He. destruct s as [t| | | |]; cbn [okside] in Hs; try contradiction.
-  2:{ cbn [unwrap_side join enc]. rewrite spec_val by reflexivity. unfold expected. rewrite Hu, He. reflexivity. }
-  assert (G : forall f, nosep f = true -> toks_eqb f (unwrap_toks t) = true ->
-              spec c (join (Val f) (Val t)) = true).
-  { intros f H1 H2. apply join_val; [exact H1| |apply He]. unfold expected. now rewrite Hu. }
-  destruct t as [|x r].
-  - cbn [unwrap_side]. apply G; reflexivity.
-  - destruct x; cbn [unwrap_side].
-    1-3,6-7: apply G; [exact Hs | cbn [unwrap_toks]; apply toks_eqb_refl].
-    + (* TNone *) destruct r.
-      * cbn [join enc]. rewrite spec_val by reflexivity. unfold expected. rewrite Hu, He. reflexivity.
-      * apply G; [exact Hs | cbn [unwrap_toks]; apply toks_eqb_refl].
-    + (* TSome *) apply G; [exact Hs | cbn [unwrap_toks]; apply toks_eqb_refl].
-Qed.
-
 Lemma eval_uZERO bits : 0 <= bits -> eval (uZERO bits) = 0.
 Proof. intros H. now destruct (canon_uZERO bits H). Qed.
 
@@ -139,8 +103,6 @@ Ltac fwd :=
   [ first [ apply okside_sU | apply okside_sB | apply okside_sY | apply okside_sOpt | apply okside_sPair
           | (cbn; reflexivity) ]
   | reflexivity | intros; reflexivity ].
-Ltac obsfwd :=
-  unfold forward; apply join_same; [eapply okside_obs; eassumption | reflexivity | intros; reflexivity].
 
 Lemma join_unwrap_opt c (o : option (list Z)) :
   unwraps c = true -> (forall t, extra c t = true) ->
@@ -151,11 +113,45 @@ Proof.
   - cbn [join enc]. rewrite spec_val by reflexivity. unfold expected. rewrite Hu, He. reflexivity.
 Qed.
 
+Lemma forallb_canon bits xs : forallb (canonb bits) xs = true -> Forall (canon bits) xs.
+Proof. rewrite forallb_forall, Forall_forall. intros H x Hx. apply canonb_iff, H, Hx. Qed.
+
+Lemma div_rem_total bits a b :
+  0 <= bits -> canon bits a -> canon bits b ->
+  (exists q r, UDiv.div_rem a b = Val (q, r)) \/ UDiv.div_rem a b = Panic.
+Proof.
+  intros Hb Ha Hc. destruct (Z.eq_dec (eval b) 0) as [E|N].
+  - right. eapply (PfUDiv.div_rem_zero PfUDiv.DivKernelZero_holds); eassumption.
+  - left. rewrite (PfUDiv.div_rem_eq PfC03Closed.DivKernelOK_holds bits a b) by assumption. eauto.
+Qed.
+
+Lemma pow_total bits a e :
+  0 <= bits -> canon bits a -> canon bits e -> exists r, Pow.pow bits a e = Val r.
+Proof.
+  intros Hb Ha He. destruct (Z.eq_dec bits 0) as [->|N].
+  - exists a. reflexivity.
+  - destruct (PfPow.wrapping_pow_spec bits a e) as (r & E & _); [lia | assumption..|]. exists r. exact E.
+Qed.
+
 Theorem C20_all c : wf c -> spec c (run c) = true.
 Proof.
   unfold wf, run. destruct c; cbn [wfb sides fst snd]; intros Hwf; unpack.
   all: try solve [fwd].
-  all: try solve [obsfwd].
+  - (* op_mul *)
+    match goal with Ha : canon bits a, Hb : canon bits b |- _ =>
+      pose proof Ha as (La & Wa & _); pose proof Hb as (Lb & Wb & _) end.
+    destruct (PfMul.wrapping_mul_spec bits a b) as (p & Ep & _); [assumption..|].
+    unfold Facade.op_mul, bin_op. rewrite Ep. fwd.
+  - (* op_div *)
+    apply join_same; [|reflexivity|intros; reflexivity].
+    unfold Facade.op_div, bin_op, UDiv.wrapping_div.
+    destruct (div_rem_total bits a b) as [(q & r & Edr)|Edr]; [assumption..| |]; rewrite Edr; cbn [obind];
+      first [reflexivity | exact I].
+  - (* op_rem *)
+    apply join_same; [|reflexivity|intros; reflexivity].
+    unfold Facade.op_rem, bin_op, UDiv.wrapping_rem.
+    destruct (div_rem_total bits a b) as [(q & r & Edr)|Edr]; [assumption..| |]; rewrite Edr; cbn [obind];
+      first [reflexivity | exact I].
   - (* op_bitor *)
     unfold op_bit. rewrite (bit_op_any_shape 0 bits) by assumption.
     pose proof (bit_ref_spec 0 bits a b ltac:(assumption) ltac:(assumption) ltac:(assumption)) as R.
@@ -174,6 +170,17 @@ Proof.
   - (* op_shr_uint *)
     unfold Facade.op_shr_uint. rewrite shr_uint_agrees by (first [assumption | lia]).
     change (RunC20.usize_sat k) with (PfFacade.usize_sat k). fwd.
+  - (* it_product *)
+    match goal with H : forallb _ xs = true |- _ => apply forallb_canon in H; rename H into Hxs end.
+    destruct (PfMul.product_spec bits xs) as (r & E & C & V); [assumption..|].
+    destruct (canon_uONE bits) as [C1 E1]; [assumption|].
+    destruct (PfMul.fold_mul_spec bits xs (Bits.uONE bits)) as (r' & E' & C' & V'); [assumption..|].
+    unfold Facade.it_product. rewrite E, E'.
+    assert (Err : r = r').
+    { rewrite (uint_of_unique _ _ _ C V), (uint_of_unique _ _ _ C' V'). f_equal.
+      rewrite E1, Z.mul_mod_idemp_l by (pose proof (pow2_pos bits ltac:(assumption)); lia).
+      f_equal. ring. }
+    subst r'. fwd.
   - (* bw_count *)
     destruct (count_values bits a) as (c1&c2&c3&c4&c5&c6&E1&E2&E3&E4&E5&E6&_); [assumption..|].
     unfold Facade.bw_count, wrap_bits. rewrite E3, E4, E5, E6.
@@ -197,6 +204,22 @@ Proof.
   - (* bw_from_le_bytes *)
     unfold Facade.bw_from_le_bytes, wrap_bits. rewrite from_le_bytes_spec by (auto using bytesb_iff).
     apply join_same; [|reflexivity|intros; reflexivity]. destruct (_ && _); [reflexivity|exact I].
+  - (* bw_from_str_radix *)
+    match goal with H : textb text = true |- _ => unfold textb in H;
+      destruct (Str.utf8_decode text) as [cs|] eqn:Ecs; [clear H|discriminate H] end.
+    unfold with_text. rewrite Ecs. cbn [fst snd].
+    destruct (PfStr.from_str_radix_spec bits radix cs) as (r & Er & _); [assumption | unfold inW; lia |].
+    unfold Facade.bw_from_str_radix, wrap_bits. rewrite Er.
+    apply join_same; [|reflexivity|intros; reflexivity].
+    destruct r as [v|[c|r'|[|bb|d bb]]]; reflexivity.
+  - (* bw_from_str *)
+    match goal with H : textb text = true |- _ => unfold textb in H;
+      destruct (Str.utf8_decode text) as [cs|] eqn:Ecs; [clear H|discriminate H] end.
+    unfold with_text. rewrite Ecs. cbn [fst snd].
+    destruct (PfStr.from_str_spec bits cs) as (r & Er & _); [assumption|].
+    unfold Facade.bw_from_str, wrap_bits. rewrite Er.
+    apply join_same; [|reflexivity|intros; reflexivity].
+    destruct r as [v|[c|r'|[|bb|d bb]]]; reflexivity.
   - (* bw_from_limbs *)
     unfold Facade.bw_from_limbs, wrap_bits.
     apply join_same; [apply okside_oU, from_limbs_total|reflexivity|intros; reflexivity].
@@ -228,6 +251,40 @@ Proof.
   - (* nt_from_be_bytes *)
     unfold Facade.nt_from_be_bytes. rewrite try_from_be_slice_spec by (auto using bytesb_iff).
     apply join_unwrap_opt; [reflexivity | intros; reflexivity].
+  - (* nt_checked_div *)
+    apply join_same; [|reflexivity|intros; reflexivity].
+    unfold Facade.nt_checked_div, UDiv.checked_div, UDiv.op_div_, UDiv.wrapping_div.
+    destruct (div_rem_total bits a b) as [(q & r & Edr)|Edr]; [assumption..| |]; rewrite Edr; cbn [obind];
+      destruct (UDiv.is_zero bits b); first [reflexivity | exact I].
+  - (* nt_checked_rem *)
+    apply join_same; [|reflexivity|intros; reflexivity].
+    unfold Facade.nt_checked_rem, UDiv.checked_rem, UDiv.op_rem_, UDiv.wrapping_rem.
+    destruct (div_rem_total bits a b) as [(q & r & Edr)|Edr]; [assumption..| |]; rewrite Edr; cbn [obind];
+      destruct (UDiv.is_zero bits b); first [reflexivity | exact I].
+  - (* nt_checked_div_euclid *)
+    apply join_same; [|reflexivity|intros; reflexivity].
+    unfold Facade.nt_checked_div_euclid, UDiv.checked_div, UDiv.op_div_, UDiv.wrapping_div.
+    destruct (div_rem_total bits a b) as [(q & r & Edr)|Edr]; [assumption..| |]; rewrite Edr; cbn [obind];
+      destruct (UDiv.is_zero bits b); first [reflexivity | exact I].
+  - (* nt_checked_rem_euclid *)
+    apply join_same; [|reflexivity|intros; reflexivity].
+    unfold Facade.nt_checked_rem_euclid, UDiv.checked_rem, UDiv.op_rem_, UDiv.wrapping_rem.
+    destruct (div_rem_total bits a b) as [(q & r & Edr)|Edr]; [assumption..| |]; rewrite Edr; cbn [obind];
+      destruct (UDiv.is_zero bits b); first [reflexivity | exact I].
+  - (* nt_div_euclid *)
+    apply join_same; [|reflexivity|intros; reflexivity].
+    unfold Facade.nt_div_euclid, UDiv.wrapping_div.
+    destruct (div_rem_total bits a b) as [(q & r & Edr)|Edr]; [assumption..| |]; rewrite Edr; cbn [obind];
+      first [reflexivity | exact I].
+  - (* nt_rem_euclid *)
+    apply join_same; [|reflexivity|intros; reflexivity].
+    unfold Facade.nt_rem_euclid, UDiv.wrapping_rem.
+    destruct (div_rem_total bits a b) as [(q & r & Edr)|Edr]; [assumption..| |]; rewrite Edr; cbn [obind];
+      first [reflexivity | exact I].
+  - (* nt_inv *)
+    pose proof (PfMul.inv_ring_spec bits a ltac:(assumption) ltac:(assumption)) as S.
+    unfold Facade.nt_inv.
+    destruct ((0 <? bits) && Z.odd (eval a)); [destruct S as (x & E & _); rewrite E | rewrite S]; fwd.
   - (* nt_mul_add *)
     match goal with Ha : canon bits a, Hb : canon bits b |- _ =>
       pose proof Ha as (La & Wa & _); pose proof Hb as (Lb & Wb & _) end.
@@ -237,6 +294,23 @@ Proof.
     apply join_val; [reflexivity | apply toks_eqb_refl |]. cbn [extra]. unfold U.
     rewrite modp2_spec, Vp by assumption.
     rewrite Z.add_mod_idemp_l by (pose proof (pow2_pos bits ltac:(assumption)); lia). apply toks_eqb_refl.
+  - (* nt_wrapping_mul *)
+    match goal with Ha : canon bits a, Hb : canon bits b |- _ =>
+      pose proof Ha as (La & Wa & _); pose proof Hb as (Lb & Wb & _) end.
+    destruct (PfMul.wrapping_mul_spec bits a b) as (p & Ep & _); [assumption..|].
+    unfold Facade.nt_wrapping_mul. rewrite Ep. fwd.
+  - (* nt_from_str_radix *)
+    match goal with H : textb text = true |- _ => unfold textb in H;
+      destruct (Str.utf8_decode text) as [cs|] eqn:Ecs; [clear H|discriminate H] end.
+    unfold with_text. rewrite Ecs. cbn [fst snd].
+    assert (HrB : 0 <= radix < B) by (rewrite B_val; lia).
+    destruct (PfStr.from_str_radix_spec bits radix cs) as (r & Er & _); [assumption | exact HrB |].
+    unfold Facade.nt_from_str_radix. rewrite !as_usize_id by exact HrB. rewrite Er.
+    apply join_same; [|reflexivity|intros; reflexivity].
+    destruct r as [v|[c|r'|[|bb|d bb]]]; reflexivity.
+  - (* nt_pow *)
+    destruct (pow_total bits a e) as (r & Er); [assumption..|].
+    unfold Facade.nt_pow. rewrite Er. fwd.
   - (* nt_to_prim *)
     match goal with H : prim128b _ = true |- _ => unfold prim128b in H;
       assert (Hty : ty = 10 \/ ty = 4 \/ ty = 11 \/ ty = 5)
@@ -290,17 +364,54 @@ Proof.
   - (* nt_from_le *)
     apply join_val; [reflexivity | cbn [expected unwraps unwrap_toks]; apply toks_eqb_refl | cbn [extra]; apply toks_eqb_refl].
   - (* nt_pow_u32 *)
-    unfold Facade.nt_pow_u32, forward.
+    unfold Facade.nt_pow_u32.
     rewrite try_from_prim_spec by (first [assumption | cbn; lia]).
     match goal with |- context [if n <? 0 then _ else _] => destruct (Z.ltb_spec n 0); [lia|] end.
-    unfold res_of. cbn [Conv.from_of obind].
-    destruct (Z.ltb_spec n (2 ^ bits)) as [Hfit|Hbig]; cbn [obind].
-    + apply join_same; [eapply okside_obs; eassumption | reflexivity |].
+    unfold res_of. destruct (Z.ltb_spec n (2 ^ bits)) as [Hfit|Hbig]; cbn [Conv.from_of obind].
+    + destruct (pow_total bits a (uint_of bits n)) as (r & Er);
+        [assumption | assumption | apply canon_uint_of_range; [assumption | lia] |].
+      rewrite Er. apply join_same; [reflexivity | reflexivity |].
       intros t. cbn [extra]. destruct (Z.leb_spec (2 ^ bits) n); [lia|reflexivity].
-    + cbn [join enc]. rewrite spec_val by reflexivity. cbn [expected unwraps extra].
+    + cbn [oU omap obind join enc]. rewrite spec_val by reflexivity. cbn [expected unwraps extra].
       destruct (Z.leb_spec (2 ^ bits) n); [reflexivity|lia].
+  - (* ni_div_floor *)
+    apply join_same; [|reflexivity|intros; reflexivity].
+    unfold Facade.ni_div_floor, UDiv.wrapping_div.
+    destruct (div_rem_total bits a b) as [(q & r & Edr)|Edr]; [assumption..| |]; rewrite Edr; cbn [obind];
+      first [reflexivity | exact I].
+  - (* ni_mod_floor *)
+    apply join_same; [|reflexivity|intros; reflexivity].
+    unfold Facade.ni_mod_floor, UDiv.wrapping_rem.
+    destruct (div_rem_total bits a b) as [(q & r & Edr)|Edr]; [assumption..| |]; rewrite Edr; cbn [obind];
+      first [reflexivity | exact I].
+  - (* ni_gcd *)
+    unfold Facade.ni_gcd.
+    rewrite (PfGcd.gcd_spec PfC12Closed.DivKernelOK_holds PfGcdMatrix.LehmerStepOK_holds bits a b) by assumption.
+    fwd.
   - (* ni_lcm *)
-    apply join_unwrap; [eapply okside_obs; eassumption | reflexivity | intros; reflexivity].
+    unfold Facade.ni_lcm.
+    rewrite (PfGcd.lcm_spec PfC12Closed.DivKernelOK_holds PfGcdMatrix.LehmerStepOK_holds bits a b) by assumption.
+    apply join_unwrap_opt; [reflexivity | intros; reflexivity].
+  - (* ni_div_ceil *)
+    apply join_same; [|reflexivity|intros; reflexivity].
+    unfold Facade.ni_div_ceil, UDiv.div_ceil.
+    destruct (div_rem_total bits a b) as [(q & r & Edr)|Edr]; [assumption..| |]; rewrite Edr; cbn [obind];
+      try destruct (UDiv.is_zero bits r); first [reflexivity | exact I].
+  - (* ni_div_rem *)
+    apply join_same; [|reflexivity|intros; reflexivity].
+    unfold Facade.ni_div_rem.
+    destruct (div_rem_total bits a b) as [(q & r & Edr)|Edr]; [assumption..| |]; rewrite Edr; cbn [obind];
+      first [reflexivity | exact I].
+  - (* ni_div_mod_floor *)
+    apply join_same; [|reflexivity|intros; reflexivity].
+    unfold Facade.ni_div_mod_floor.
+    destruct (div_rem_total bits a b) as [(q & r & Edr)|Edr]; [assumption..| |]; rewrite Edr; cbn [obind];
+      first [reflexivity | exact I].
+  - (* ni_extended_gcd *)
+    destruct (PfGcd.gcd_extended_spec PfC12Closed.DivKernelOK_holds PfGcdMatrix.LehmerStepOK_holds bits a b)
+      as (r & Er & _); [assumption..|].
+    unfold Facade.ni_extended_gcd. rewrite Er. destruct r as [[[g x] y] sg]. cbn [obind].
+    apply join_same; [reflexivity | reflexivity | intros; reflexivity].
   - (* ni_is_multiple_of *)
     unfold Facade.ni_is_multiple_of, UDiv.checked_rem, UDiv.op_rem_, UDiv.wrapping_rem.
     change (UDiv.is_zero bits b) with (limbs_eq b (uZERO bits)). unfold is_zero.
@@ -371,14 +482,15 @@ Proof.
     apply join_val; [reflexivity | apply toks_eqb_refl | apply toks_eqb_refl].
 Qed.
 
+
 (* what wf means, for two representative constructors *)
 Lemma wf_ct_gt bits a b : wf (RunC20.ct_gt bits a b) <-> 0 <= bits /\ canon bits a /\ canon bits b.
 Proof.
   unfold wf. cbn [wfb]. rewrite !andb_true_iff, Z.leb_le, !canonb_iff. tauto.
 Qed.
-Lemma wf_op_mul bits shape a b obs :
-  wf (RunC20.op_mul bits shape a b obs) <->
-  0 <= bits /\ 0 <= shape < 6 /\ canon bits a /\ canon bits b /\ obs_okb bits obs = true.
+Lemma wf_op_mul bits shape a b :
+  wf (RunC20.op_mul bits shape a b) <->
+  0 <= bits /\ 0 <= shape < 6 /\ canon bits a /\ canon bits b.
 Proof.
   unfold wf. cbn [wfb]. unfold shapeb. rewrite !andb_true_iff, !Z.leb_le, Z.ltb_lt, !canonb_iff. tauto.
 Qed.
